@@ -27,6 +27,7 @@ type mFunc struct {
 	id      int64
 	ops     []Op
 	tail    *Op
+	addG    int
 }
 
 // mRef is a non-null function reference. imp records that it was created from an index that
@@ -379,7 +380,7 @@ func (m *model) plan(spec *ModSpec, name string) *plan {
 		return p
 	}
 	for i, f := range spec.Funcs {
-		in.funcs = append(in.funcs, &mFunc{def: in, modName: spec.Name, idx: in.v.nIF + i, sig: f.Sig, id: f.ID, ops: f.Ops, tail: f.Tail})
+		in.funcs = append(in.funcs, &mFunc{def: in, modName: spec.Name, idx: in.v.nIF + i, sig: f.Sig, id: f.ID, ops: f.Ops, tail: f.Tail, addG: f.AddG})
 	}
 	for i, f := range in.funcs {
 		in.refs = append(in.refs, &mRef{f: f, imp: i < in.v.nIF, by: in})
@@ -619,7 +620,21 @@ func (m *model) callFunc(f *mFunc) ([]uint64, string) {
 		}
 		return m.callRef(t.fn[uint32(tl.B)], int(tl.C))
 	}
-	return idResults(f.sig, f.id), ""
+	res := idResults(f.sig, f.id)
+	if f.addG > 0 && f.addG <= len(f.def.globals) {
+		g := f.def.globals[f.addG-1]
+		v := g.lo
+		if g.vt == wasmenc.I32 {
+			v &= 0xffffffff
+		}
+		res = append([]uint64{}, res...)
+		if f.sig == 2 {
+			res[0] += v
+		} else {
+			res[0] = uint64(uint32(res[0]) + uint32(v))
+		}
+	}
+	return res, ""
 }
 
 func (m *model) callRef(r *mRef, sig int) ([]uint64, string) {
